@@ -220,7 +220,7 @@ func targeted(cfg Config, p *program) map[string]bool {
 		switch {
 		case pt == "./..." && cfg.Cwd == "", pt == "example.com/...", pt == "{ROOT}/...":
 			return nil
-		case pt == "." || pt == "./...":
+		case pt == "." || pt == "./..." || strings.HasSuffix(pt, ".go"):
 			t[cfg.Cwd] = true
 		case strings.HasPrefix(pt, "./"):
 			t[filepath.ToSlash(filepath.Clean(filepath.Join(filepath.FromSlash(cfg.Cwd), filepath.FromSlash(pt[2:]))))] = true
@@ -558,6 +558,28 @@ func GenCase(r *rand.Rand, thorough bool) *Case {
 		n = 14
 	}
 	c.Configs = append([]Config{baseline()}, GenConfigs(r, pkgs, n, true)...)
+	// naming a package by the list of its files, in another order than the directory listing
+	for _, pk := range m.Pkgs {
+		if pk.Idx < m.Ext || pk.Facade {
+			continue
+		}
+		files := m.PkgGoFiles(pk)
+		if len(files) < 3 {
+			continue // one injector file: no order to speak of
+		}
+		fc := baseline()
+		fc.Cwd = pk.Path
+		for _, i := range r.Perm(len(files)) {
+			fc.Patterns = append(fc.Patterns, files[i])
+		}
+		// make sure it is not the sorted order
+		if sortedStrings(fc.Patterns) {
+			fc.Patterns[0], fc.Patterns[len(files)-1] = fc.Patterns[len(files)-1], fc.Patterns[0]
+		}
+		fc.Label = fmt.Sprintf("invocation files cwd=%q %v", fc.Cwd, fc.Patterns)
+		c.Configs = append(c.Configs, fc)
+		break
+	}
 	// the property names the dependency layouts explicitly: every generated program is generated at
 	// least once from a vendor directory (GOPATH+vendor twice as often: the only layout in which the
 	// loader reports vendored packages under their vendor/ path), and thorough runs add plain GOPATH
@@ -591,3 +613,5 @@ func CorpusCase(r *rand.Rand, name string, thorough bool) *Case {
 }
 
 func sortStrings(s []string) { sort.Strings(s) }
+
+func sortedStrings(s []string) bool { return sort.StringsAreSorted(s) }
